@@ -233,6 +233,10 @@ func calculateMaxCreation(params *datadoghqv1alpha1.ExtendedDaemonSetSpecStrateg
 	if err != nil {
 		return 0, err
 	}
+	if params.SlowStartIntervalDuration.Duration <= 0 {
+		// no usable interval: no slow start (and no division by zero)
+		return int(*params.MaxParallelPodCreation), nil
+	}
 	rollingUpdateDuration := now.Sub(rsStartTime)
 	nbSlowStartSlot := int(rollingUpdateDuration / params.SlowStartIntervalDuration.Duration)
 	result := (1 + nbSlowStartSlot) * startValue
